@@ -222,7 +222,14 @@ static int do_case(const jv *line)
                 else { memset(pb, 0x55, SL + 40); s = cJSON_PrintPreallocated(c, pb, (int)SL + 6, vb_truthy(fmt, i + 1)) ? pb : NULL; }
                 print_calls++; inplace_calls++;
                 if (!s) viol("C05 C04 C09", "printing member %zu where it stands (entry point %d) failed", i, ep);
-                else if (strcmp(s, sub)) viol("C05 C04", "member %zu printed where it stands (entry point %d: 0 Print/PrintUnformatted, 1-2 PrintBuffered, 3 PrintPreallocated) gives %.120s, not the text of that item alone", i, ep, s);
+                else if (strcmp(s, sub)) {
+                    /* not the predicted bytes: what the properties demand is that the member prints as it would print alone (a detached copy of it) */
+                    cJSON *alone = cJSON_Duplicate(c, 1); char *sa;
+                    if (alone && alone->string) { cJSON_free(alone->string); alone->string = NULL; }
+                    sa = alone ? (fmt ? cJSON_Print(alone) : cJSON_PrintUnformatted(alone)) : NULL; drift_texts++;
+                    if (!sa || strcmp(s, sa)) viol("C05 C04", "member %zu printed where it stands (entry point %d: 0 Print/PrintUnformatted, 1-2 PrintBuffered, 3 PrintPreallocated) gives %.120s, not the text of that item alone (%.60s)", i, ep, s, sa ? sa : "NULL");
+                    cJSON_free(sa); cJSON_Delete(alone);
+                }
                 if (ep == 3 && s && (pb[SL + 6] != 0x55)) viol("C09", "cJSON_PrintPreallocated on member %zu wrote beyond the n bytes it was given", i);
                 if (ep < 3) cJSON_free(s);
             }
@@ -307,6 +314,98 @@ done:
     return 1;
 }
 
+/* Scale cases (run once, behind the escape table): trees whose text runs to megabytes because of ONE long string / key / many members.
+ * No byte prediction here: the properties are checked directly - every entry point returns text, all return the same bytes (C05), the text
+ * parses back to the same strings (C04), printing into a caller buffer obeys C09 at the sizes around the text length, nothing leaks (C07),
+ * under both allocator configurations.  fill: 0 = 'a', 1 = 0x01 (six output bytes each), 2 = mixed escapes, 3 = multi-byte UTF-8 */
+static long scale_cases;
+static char *fill_string(size_t n, int fill)
+{
+    static const char *MIX = "a\"b\\c\n\xc3\xa9\x01 \xe2\x82\xac/"; size_t i, m = strlen(MIX); char *s = (char*)malloc(n + 1);
+    for (i = 0; i < n; i++) s[i] = fill == 0 ? 'a' : fill == 1 ? 1 : fill == 2 ? MIX[i % m] : "\xe2\x82\xac"[i % 3];
+    if (fill == 3) while (n % 3) { s[--n] = 0; }
+    s[n] = 0; return s;
+}
+static void scale_one(cJSON *t, const char *what)
+{
+    int cfg, fmt; char *ref = NULL;
+    scale_cases++;
+    for (cfg = 0; cfg < 2; cfg++) {
+        long live0 = al_live;
+        if (cfg == 0) use_custom_hooks(); else use_default_hooks();
+        for (fmt = 0; fmt < 2; fmt++) {
+            char *s, *b; cJSON *back; size_t L;
+            if (!VD_TRY()) { al_in_call = 0; viol("*", "printing %s (allocator config %d): memory fault", what, cfg); use_custom_hooks(); return; }
+            al_in_call = 1; al_window(0);
+            s = fmt ? cJSON_Print(t) : cJSON_PrintUnformatted(t);
+            if (!s) { viol("C04 C05", "%s: %s returned NULL (allocator config %d)", what, fmt ? "cJSON_Print" : "cJSON_PrintUnformatted", cfg); al_in_call = 0; VD_END(); continue; }
+            L = strlen(s);
+            b = cJSON_PrintBuffered(t, 256, vb_truthy(fmt, 1)); if (!b || strcmp(b, s)) viol("C05 C04", "%s: cJSON_PrintBuffered(256) %s", what, b ? "differs from cJSON_Print" : "returned NULL"); cJSON_free(b);
+            b = cJSON_PrintBuffered(t, (int)(L / 2 + 10), fmt); if (!b || strcmp(b, s)) viol("C05 C04", "%s: cJSON_PrintBuffered(half the text length) %s", what, b ? "differs" : "returned NULL"); cJSON_free(b);
+            b = cJSON_PrintBuffered(t, (int)L - 6, fmt); if (!b || strcmp(b, s)) viol("C05 C04", "%s: cJSON_PrintBuffered(text length - 6) %s", what, b ? "differs" : "returned NULL"); cJSON_free(b);
+            { char *pb = (char*)malloc(L + 64); long n; static const long D[] = { -1, 0, 1, 5, 6 };
+              for (n = 0; n < 5; n++) { int r; memset(pb + L - 8, 0x55, 72); r = cJSON_PrintPreallocated(t, pb, (int)((long)L + D[n]), fmt);
+                  if (r && (D[n] < 1 || strcmp(pb, s))) viol("C09", "%s: cJSON_PrintPreallocated(text length %+ld) returned true without the complete text", what, D[n]);
+                  if (!r && D[n] >= 6) viol("C09", "%s: cJSON_PrintPreallocated fails with text length + 6 bytes", what);
+                  if ((unsigned char)pb[L + D[n]] != 0x55 && !(r && D[n] > 0 && 0)) { if ((long)L + D[n] < (long)L + 64 && (unsigned char)pb[L + D[n]] != 0x55) viol("C09", "%s: cJSON_PrintPreallocated(n = text length %+ld) wrote at index n", what, D[n]); } }
+              free(pb); }
+            if (fmt == 0) { if (!ref) ref = strdup(s); else if (strcmp(ref, s)) viol("C04", "%s: text depends on the allocator configuration", what); }
+            al_window(0); back = cJSON_Parse(s);
+            if (!back) viol("C04", "%s: the printed text does not parse back", what);
+            else { char why[200] = ""; if (!roundtrip_equal(t, back, why, sizeof(why))) viol("C04", "%s: print then parse changes the value (%s)", what, why); }
+            cJSON_Delete(back); cJSON_free(s);
+            al_in_call = 0; VD_END();
+        }
+        if (al_live != live0) viol("C07", "%s: printing (allocator config %d) leaves %ld block(s) allocated", what, cfg, al_live - live0);
+        if (al_bad_free) { viol("C07 C14", "%s: invalid release while printing", what); al_bad_free = 0; }
+        if (!al_check_redzones()) { viol("*", "%s: printing (allocator config %d) wrote beyond the end of a block it allocated", what, cfg); al_overflow = 0; }
+    }
+    use_custom_hooks(); free(ref);
+}
+static void do_scale(int full)
+{
+    static const size_t LEN[] = { 70000, 600000, 1200016, 1700000 }; size_t li; int fill; char what[160];
+    al_case_begin(); use_custom_hooks();
+    for (li = 0; li < (full ? 4u : 3u); li++) for (fill = 0; fill < 4; fill++) {
+        char *a = fill_string(LEN[li], fill), *b = fill_string(LEN[li] / 2 + 7, (fill + 1) & 3); cJSON *t;
+        if (!full && fill == 1 && li == 2) { free(a); free(b); continue; }
+        vd_tick();
+        t = cJSON_CreateArray(); cJSON_AddItemToArray(t, cJSON_CreateStringReference(b)); cJSON_AddItemToArray(t, cJSON_CreateStringReference(a));
+        snprintf(what, sizeof(what), "an array of two strings of %zu and %zu bytes (fill %d)", strlen(b), strlen(a), fill); scale_one(t, what); cJSON_Delete(t);
+        t = cJSON_CreateObject(); cJSON_AddItemToObjectCS(t, b, cJSON_CreateNumber(1)); cJSON_AddItemToObjectCS(t, "k", cJSON_CreateStringReference(a));
+        snprintf(what, sizeof(what), "an object with a key of %zu bytes and a string of %zu bytes (fill %d)", strlen(b), strlen(a), fill); scale_one(t, what); cJSON_Delete(t);
+        free(a); free(b);
+    }
+    {   /* 1.3 MB of small members, then one member of 700 KB */
+        char *small = fill_string(600, 2), *big = fill_string(716800, 0); cJSON *t = cJSON_CreateArray(); int i;
+        for (i = 0; i < 2100; i++) cJSON_AddItemToArray(t, cJSON_CreateStringReference(small));
+        cJSON_AddItemToArray(t, cJSON_CreateStringReference(big)); cJSON_AddItemToArray(t, cJSON_CreateNumber(2));
+        vd_tick(); scale_one(t, "2100 strings of 600 bytes followed by one of 716800 bytes"); cJSON_Delete(t); free(small); free(big);
+    }
+    {   /* one value whose text alone exceeds INT_MAX bytes: refused; the caller's buffer stays the caller's */
+        size_t n = 360000000; char *huge = (char*)mmap(NULL, n + 1, PROT_READ | PROT_WRITE, MAP_PRIVATE | MAP_ANONYMOUS, -1, 0);
+        if (huge != MAP_FAILED) {
+            cJSON *t; char *buf; int r; char *s; long live0;
+            memset(huge, 1, n); huge[n] = 0;
+            t = cJSON_CreateStringReference(huge); buf = (char*)al_malloc(4096); live0 = al_live;
+            vd_tick();
+            if (VD_TRY()) {
+                al_in_call = 1; al_window(0);
+                r = cJSON_PrintPreallocated(t, buf, 4096, 0);
+                vd_tick();
+                if (r) viol("C09", "cJSON_PrintPreallocated returned true for a text of more than INT_MAX bytes");
+                if (!al_is_live(buf) || al_bad_free) { viol("C07 C09 C14", "cJSON_PrintPreallocated released the caller's buffer (a value whose text exceeds INT_MAX bytes)"); al_bad_free = 0; }
+                s = cJSON_PrintUnformatted(t); if (s) { cJSON_free(s); }      /* may succeed or be refused; must not leak or crash */
+                vd_tick();
+                if (al_live != live0) viol("C07", "printing a value whose text exceeds INT_MAX bytes leaves %ld block(s) allocated", al_live - live0);
+                al_in_call = 0; VD_END();
+            } else { al_in_call = 0; viol("*", "printing a value whose text exceeds INT_MAX bytes: memory fault"); }
+            if (al_is_live(buf)) al_free(buf);
+            cJSON_Delete(t); munmap(huge, n + 1); scale_cases++;
+        }
+    }
+}
+
 int vd_print_main(int argc, char **argv);
 int vd_print_main(int argc, char **argv)
 {
@@ -323,7 +422,7 @@ int vd_print_main(int argc, char **argv)
         if (len <= 0) continue;
         if (line[0] != '"') { if (VD.passthrough) fputs(line, VD.passthrough); continue; }
         copy = strdup(line); jv_reset(); v = jv_parse_line(line);
-        if (v && v->t == JV_ARR && v->n == 2 && jv_is_str(jv_at(v, 0), "E")) { VD.curline = copy; VD.cases++; if (do_table(v, full_table) < 0) { fprintf(stderr, "vdrv: cannot interpret escape table\n"); return 2; } VD.nontrivial++; VD.curline = NULL; free(copy); continue; }
+        if (v && v->t == JV_ARR && v->n == 2 && jv_is_str(jv_at(v, 0), "E")) { VD.curline = copy; VD.cases++; if (do_table(v, full_table) < 0) { fprintf(stderr, "vdrv: cannot interpret escape table\n"); return 2; } do_scale(full_table); VD.nontrivial++; VD.curline = NULL; free(copy); continue; }
         if (!v || v->t != JV_ARR || v->n < 5 || !jv_is_str(jv_at(v, 0), "R")) { if (VD.passthrough) fputs(copy, VD.passthrough); free(copy); continue; }
         VD.curline = copy; VD.cases++;
         rc = do_case(v);
@@ -333,8 +432,8 @@ int vd_print_main(int argc, char **argv)
         vd_tick(); VD.curline = NULL; free(copy);
     }
     if (driftf) fclose(driftf);
-    snprintf(extra, sizeof(extra), "\"print_calls\": %ld, \"members_printed_in_place_calls\": %ld, \"short_strings_against_escape_table\": %ld, \"preallocated_calls\": %ld, \"texts_differing_from_prediction\": %ld, \"texts_sent_to_tla_grammar\": %ld, \"failinject_runs\": %ld, \"other_property_violations\": %ld",
-             print_calls, inplace_calls, table_strings, prealloc_calls, drift_texts, drift_recorded, failinj_runs, VD.by_kind[0]);
+    snprintf(extra, sizeof(extra), "\"print_calls\": %ld, \"members_printed_in_place_calls\": %ld, \"short_strings_against_escape_table\": %ld, \"scale_cases\": %ld, \"preallocated_calls\": %ld, \"texts_differing_from_prediction\": %ld, \"texts_sent_to_tla_grammar\": %ld, \"failinject_runs\": %ld, \"other_property_violations\": %ld",
+             print_calls, inplace_calls, table_strings, scale_cases, prealloc_calls, drift_texts, drift_recorded, failinj_runs, VD.by_kind[0]);
     if (stats) vd_write_stats(stats, extra);
     return VD.violations ? 1 : 0;
 }
